@@ -177,13 +177,20 @@ func playDevOn(c devIO, step string, d Dev, req *Event) (ended bool) {
 		case "starttls":
 			c.Send("<failure xmlns='" + NSTLS + "'/>")
 		case "auth":
-			switch d.Variant % 3 {
+			switch v := d.Variant % len(SASLFailures); v {
 			case 0:
 				c.Send("<failure xmlns='" + NSSASL + "'><not-authorized/></failure>")
 			case 1:
 				c.Send("<failure xmlns='" + NSSASL + "'><temporary-auth-failure/><text xml:lang='en'>later</text></failure>")
-			default:
+			case 2:
 				c.Send("<failure xmlns='" + NSSASL + "'/>")
+			default:
+				// every condition of RFC 6120 6.5, and one nobody defined; every other one with a text
+				txt := ""
+				if v%2 == 0 {
+					txt = "<text xml:lang='en'>" + SASLFailures[v] + " &amp; more</text>"
+				}
+				c.Send("<failure xmlns='" + NSSASL + "'><" + SASLFailures[v] + "/>" + txt + "</failure>")
 			}
 		case "resume":
 			c.Send("<failed xmlns='" + NSSM + "'><item-not-found xmlns='urn:ietf:params:xml:ns:xmpp-stanzas'/></failed>")
@@ -249,6 +256,12 @@ func playDevOn(c devIO, step string, d Dev, req *Event) (ended bool) {
 	}
 	return false
 }
+
+// SASLFailures are the forms of <failure/> the peer can answer <auth/> with (Dev{Kind: "failure"}, by variant): the
+// first three are fixed forms (not-authorized, temporary-auth-failure with a text, no condition at all).
+var SASLFailures = []string{"not-authorized", "temporary-auth-failure", "", "aborted", "account-disabled", "credentials-expired",
+	"encryption-required", "incorrect-encoding", "invalid-authzid", "invalid-mechanism", "malformed-request", "mechanism-too-weak",
+	"x-site-specific-condition"}
 
 // IdleAfterBind is how long the client may stay silent after a successful bind before the peer takes the
 // negotiation to be complete (the harness scales it while confirming timing-dependent verdicts).
